@@ -51,6 +51,7 @@ def run(tier, seed, replay):
     for nm, cfg in DECO:
         sp = common.mk_spec("d" + nm, [cfg])
         sp["what"] = ["missing-in:" + nm]
+        sp["cfg"] = cfg
         base.append(sp)
     if replay:
         rp = json.load(open(replay))["replay"]
